@@ -108,9 +108,10 @@ Print Assumptions C03_writer_open.
 
 (* writing, one `writer += record` from writers in the same state: Lenient does
    what Silent does and warns once per collected error; Strict writes the same
-   line when the record has no error and otherwise raises its first error
-   without writing the line (the column-name line, if due, is written in all
-   modes) *)
+   lines when the record has no error and otherwise raises its first error and
+   leaves the writer exactly as it was - nothing written, not even the
+   column-name line of a scheme-less writer, whose scheme stays open - while
+   Silent wrote (the column-name line if due and) the record's line *)
 Theorem C03_writer_add :
   forall (C W : Type) (sem : colsem C W) (wS wL wT : writer C) (r : mrec C W),
     same_writer wS wL -> same_writer wS wT ->
@@ -119,13 +120,12 @@ Theorem C03_writer_add :
     let aL := writer_iadd sem wL r in
     let aT := writer_iadd sem wT r in
     fst (fst aS) = [] /\ not_format (snd aS) /\ snd aL = snd aS /\ same_writer (snd (fst aS)) (snd (fst aL)) /\
-    w_scheme (snd (fst aT)) = w_scheme (snd (fst aS)) /\
     forall r', snd aS = Ok r' ->
       fst (fst aL) = map (LIgnored LgWriter) (merrs r') /\ fst (fst aT) = [] /\
       match merrs r' with
       | [] => snd aT = Ok r' /\ same_writer (snd (fst aS)) (snd (fst aT))
-      | e0 :: _ => snd aT = Raise (format_of e0) /\
-                   exists line, w_out (snd (fst aS)) = w_out (snd (fst aT)) ++ [line]
+      | e0 :: _ => snd aT = Raise (format_of e0) /\ snd (fst aT) = wT /\
+                   exists col line, w_out (snd (fst aS)) = w_out wS ++ col ++ [line]
       end.
 Proof. intros C W sem wS wL wT r. exact (writer_iadd_modes sem wS wL wT r). Qed.
 Print Assumptions C03_writer_add.
